@@ -198,9 +198,24 @@ def run(ctx):
                 if rng.random() < 0.3:
                     mats.append([[rng.randint(-3, 3) for _ in range(n)] for _ in range(n)])      # maybe not invertible
             else:
-                modulo = rng.choice([2, 3, 5, 7, 10, 2**31 - 1, 2**31])
+                modulo = rng.choice([2, 3, 5, 7, 10, 2**31 - 1, 2**31, 2 * 10**9, 2**31 - 1, 2**26 - 5, 94906267, 3037000507 % 2**31])
                 k = rng.randint(1, 3)
-                mats = [[[v % modulo for v in row] for row in unimodular(rng, n, rng.randint(1, 2 * n), 2)] for _ in range(k)]
+                if modulo > 2**20:
+                    # many residues near the modulus in one row/column: sums of >= 3 products of such residues exceed int64 unless reduced first
+                    n = rng.randint(3, 6)
+                    mats = []
+                    for _ in range(k):
+                        M = [[1 if i == j else 0 for j in range(n)] for i in range(n)]
+                        if rng.random() < 0.5:
+                            for j in range(1, n):
+                                M[0][j] = -1
+                            for i in range(0, n - 1):
+                                M[i][n - 1] = 1 if i else M[i][n - 1]
+                        else:
+                            M = unimodular(rng, n, rng.randint(n, 3 * n), 2)
+                        mats.append([[v % modulo for v in row] for row in M])
+                else:
+                    mats = [[[v % modulo for v in row] for row in unimodular(rng, n, rng.randint(1, 2 * n), 2)] for _ in range(k)]
             if rng.random() < 0.4:
                 # add true inverses of some (computed exactly) so that closed sets occur
                 for M in list(mats):
